@@ -128,3 +128,84 @@ func c10StalledHandshake(r *Result) {
 }
 
 var _ net.Conn
+
+// c10BadThenSilent: "the server's only reaction is to close that connection" - at once, not when the peer finally goes away. A
+// peer sends something the server cannot accept (garbage, a Response, an inconsistent batch count, an asynchronous request;
+// as first message or after an answered request) and then just stays connected, silent. No timeouts are configured. The
+// server hangs up by itself, and Shutdown finds nothing left to wait for.
+func c10BadThenSilent(r *Result) {
+	ver := kmip.ProtocolVersion{Major: 1, Minor: 4}
+	enc := func(v interface{}) []byte {
+		var b bytesBuffer
+		if err := kmip.NewEncoder(&b).Encode(v); err != nil {
+			return nil
+		}
+		return b.b
+	}
+	good := enc(&kmip.Request{Header: kmip.RequestHeader{Version: ver, BatchCount: 1}, BatchItems: []kmip.RequestBatchItem{{Operation: kmip.OPERATION_DISCOVER_VERSIONS, RequestPayload: kmip.DiscoverVersionsRequest{}}}})
+	bads := []struct {
+		name string
+		b    []byte
+	}{
+		{"16 bytes of garbage", []byte("GET / HTTP/1.1\r\n")},
+		{"a Response instead of a Request", enc(&kmip.Response{Header: kmip.ResponseHeader{Version: ver, TimeStamp: time.Unix(1, 0), BatchCount: 0}})},
+		{"a request whose Batch Count is one more than its items", enc(&kmip.Request{Header: kmip.RequestHeader{Version: ver, BatchCount: 2}, BatchItems: []kmip.RequestBatchItem{{Operation: kmip.OPERATION_DISCOVER_VERSIONS, RequestPayload: kmip.DiscoverVersionsRequest{}}}})},
+		{"an asynchronous request", enc(&kmip.Request{Header: kmip.RequestHeader{Version: ver, AsynchronousIndicator: true, BatchCount: 1}, BatchItems: []kmip.RequestBatchItem{{Operation: kmip.OPERATION_DISCOVER_VERSIONS, RequestPayload: kmip.DiscoverVersionsRequest{}}}})},
+		{"a request cut inside its header, followed by a complete one", append(append([]byte(nil), good[:20]...), good...)},
+	}
+	for _, bad := range bads {
+		for _, after := range []int{0, 2} {
+			key := fmt.Sprintf("no timeouts; after %d answered request(s) the peer sends %s and stays connected, silent", after, bad.name)
+			crumb("C10 " + key)
+			r.eval(key, true)
+			s := &kmip.Server{}
+			sc, cc := rec.Pipe()
+			rc := rec.NewConn(sc, 1)
+			l := rec.NewListener()
+			l.Push(rec.AcceptStep{Conn: rc})
+			init := make(chan struct{})
+			ret := make(chan error, 1)
+			go func() { ret <- s.Serve(l, init) }()
+			<-init
+			_ = cc.SetDeadline(time.Now().Add(8 * time.Second))
+			ok := true
+			dec := kmip.NewDecoder(cc)
+			for i := 0; i < after; i++ {
+				_, _ = cc.Write(good)
+				var resp kmip.Response
+				if err := dec.Decode(&resp); err != nil {
+					ok = false
+				}
+			}
+			if !ok {
+				r.find(Finding{Kind: "disagreement", What: "c10BadThenSilent: the valid requests were not answered (harness)", Input: key})
+			}
+			go func() { _, _ = cc.Write(bad.b) }()
+			closed := false
+			select {
+			case <-rc.Closed():
+				closed = true
+			case <-time.After(2 * time.Second):
+			}
+			if !closed {
+				r.find(Finding{Kind: "violation", What: "the server did not close the connection of a peer whose message it could not accept; it goes on holding it for as long as the peer stays connected", Input: key, Expect: "connection closed by the server", Actual: "still open 2 s later"})
+			}
+			ctx, cancel := context.WithTimeout(context.Background(), 2*time.Second)
+			sdErr := s.Shutdown(ctx)
+			cancel()
+			if closed && sdErr != nil {
+				r.find(Finding{Kind: "violation", What: "the session of a peer that was hung up on was not released: Shutdown still waits for it", Input: key, Actual: fmt.Sprint(sdErr)})
+			}
+			cc.Close()
+			select {
+			case <-ret:
+			case <-time.After(5 * time.Second):
+			}
+			r.Stats["bad-then-silent-scenarios"]++
+		}
+	}
+}
+
+type bytesBuffer struct{ b []byte }
+
+func (w *bytesBuffer) Write(p []byte) (int, error) { w.b = append(w.b, p...); return len(p), nil }
